@@ -392,7 +392,11 @@ class Check:
         wall = time.time() - self.t0
         n_obl = len(self.obls) + len(self.structural)
         disc = sum(1 for o in self.obls if o.verdict in ("proved",)) + sum(1 for s in self.structural if s[1])
-        known_disc = sum(1 for o in self.obls if o.verdict == "known-finding") + len(set(self._known_struct))
+        # every failing structural instance that falls under a recorded finding (several paths reach the same site)
+        ks = set(self._known_struct)
+        known_struct_instances = sum(1 for (label, ok, detail, meta) in self.structural if not ok and
+                                     (label, str(meta.get("site")), str(meta.get("attr")), str(meta.get("cell")), str(meta.get("when"))) in ks)
+        known_disc = sum(1 for o in self.obls if o.verdict == "known-finding") + known_struct_instances
         by_backend, solver_s = {}, {}
         for o in self.obls + self.twins + self.covers:
             by_backend[o.backend] = by_backend.get(o.backend, 0) + 1
